@@ -311,6 +311,11 @@ def run_c13(o, tier, rng, prep):
         for k in range(len(g.moves) + 1):
             cases.append("gen\tC\t%s\t%s" % (g.fens[0], " ".join(g.moves[:k])))
     corpus = [l.rstrip("\n") for l in open(os.path.join(V.VERIF, "corpus", "c13_regress.txt")) if l.strip() and not l.startswith("#")]
+    # captures of an unmoved rook on its corner, by every piece kind incl. the king and from another corner:
+    # "each successor is the position that move really produces" includes the castling rights it leaves
+    cc = gens.corner_capture_chains(rng)
+    cc_legal = set(f for f, _, _ in gens.filter_legal([f for f, _ in cc]))
+    cases = ["gen\tC\t%s\t" % f for f, ch in cc if f in cc_legal] + cases
     cases = corpus + gen_cases_from_positions(geo, "C") + cases
     seen = set()
     cases = [c for c in cases if not (c in seen or seen.add(c))]
@@ -319,7 +324,7 @@ def run_c13(o, tier, rng, prep):
     report(o, "capture-only generation along capture chains", res, mm, sm,
            nontrivial=lambda r: "moves=" in (r.get("S") or "") and not (r.get("S") or "").endswith("moves="))
     hypothesis_obligation(o)
-    o.rule = "capture-only generation at every prefix of capture chains (0-6 plies, followed through capture-only generation as quiescence does) from game positions and en-passant/promotion geometry; non-trivial = at least one legal capture"
+    o.rule = "capture-only generation at every prefix of capture chains (0-6 plies, followed through capture-only generation as quiescence does) from game positions, en-passant/promotion geometry and captures of unmoved corner rooks by every piece kind; non-trivial = at least one legal capture"
 
 
 # ---------------------------------------------------------------- C04 / C05 / C10 (position command)
@@ -445,8 +450,56 @@ def run_c10(o, tier, rng, prep):
     o.rule = "position commands for random legal games and for shuffle histories with 0-6 (thorough: 0-25) repetitions interleaved with irreversible moves; the table is compared entry by entry with the model and as a multiset of counts with the rules-level replay; the harness starts from a dirty table cleared as the dispatcher does; non-trivial = some position occurs at least twice"
     o.assumptions.append("64-bit Zobrist collisions: positions are identified with keys; collision-freedom on the history at hand is assumed")
     run_search_repetition(o, tier, rng)
+    okg = go_twice_keeps_record(o)
+    o.oblige("a second go without a new position still sees the game's repetitions (the record survives a go)", okg)
     okr = repetition_reset_probes(o, tier, rng)
     o.oblige("nothing of earlier position commands survives in the record (fresh versus used process on the binary)", okr)
+
+
+GO_TWICE_SESSIONS = [
+    # the side to move is in check with one legal move; after it the other side, far behind, can step into a
+    # position that has already occurred twice: its search must score that move as a draw
+    "position fen 1Q6/R7/R7/7k/6p1/8/5q1K/8 w - - 0 1 moves h2h1 f2f1 h1h2 f1f2 h2h1 f2f1",
+    "position fen 8/5Q1k/8/6P1/7K/r7/r7/1q6 b - - 0 1 moves h7h8 f7f8 h8h7 f8f7 h7h8 f7f8",
+]
+
+
+def go_twice_keeps_record(o):
+    """position <history with repetitions>; go; go : the second search still values the repetition move as a draw"""
+    import blackbox
+    ok = True
+    for cmd in GO_TWICE_SESSIONS:
+        eng = blackbox.Engine(V.BINARY)
+        try:
+            eng.handshake()
+            eng.send(cmd)
+            eng.send("go wtime 150 btime 150 movestogo 1")
+            l1 = eng.read_until(lambda l: l.startswith("bestmove"), 10)
+            eng.send("go wtime 475 btime 475 movestogo 1")
+            l2 = eng.read_until(lambda l: l.startswith("bestmove"), 10)
+            o.evaluations += 2
+            case = "%s | go | go" % cmd
+            if l1[-1] is None or l2[-1] is None:
+                ok = False
+                o.violation("input", "go not answered: %s" % case, {"case": case})
+                continue
+            last = {}
+            for l in l2:
+                m = re.search(r"depth (\d+) .*score (cp|mate) (-?\d+)", l or "")
+                if m:
+                    last[int(m.group(1))] = (m.group(2), int(m.group(3)))
+            depths = sorted(last)
+            for d in depths[:-1]:
+                kind, v = last[d]
+                if v < 0:
+                    ok = False
+                    o.violation("input", "second go: a move into a twice-seen position exists but depth %d reports %s %d: %s" % (d, kind, v, case),
+                                {"case": case, "lines": [x for x in l2 if x]})
+                    break
+            hist_add(o, "go;go sessions on repetition histories")
+        finally:
+            eng.close()
+    return ok
 
 
 def run_search_repetition(o, tier, rng):
@@ -662,6 +715,14 @@ def mate_score_const():
     return int(re.search(r"Definition MATE_SCORE : Z := (\d+)", txt).group(1))
 
 
+# forced mates of both colours: once the mate is proven the remaining iterations must still go on to greater depths
+# (or stop) - never report the same depth again
+MATE_FENS = [
+    "6k1/8/6K1/8/8/8/8/R7 w - - 0 1",            # Ra8#
+    "r7/8/8/8/8/6k1/8/6K1 b - - 0 1",            # ...Ra1#
+    "7k/8/5K2/8/8/8/8/6RR w - - 0 1",            # mate in two
+    "6rr/8/8/8/8/5k2/8/7K b - - 0 1",
+]
 FORCED_MOVE_FENS = [
     "7k/8/8/8/8/8/6q1/K7 w - - 0 1",
     "k7/6Q1/8/8/8/8/8/7K b - - 0 1",
@@ -674,8 +735,8 @@ def sweep_expiry(o, tier, rng, want_c18=False, hunt=False):
     """C07/C18: for small searches enumerate every expiry index k from 0 up to the end of a reference run"""
     # roots with exactly one legal move come first: there the root loop meets the clock at other places
     # (an expiry inside the only move's subtree is noticed one iteration later)
-    pos = [(f, [], f) for f in FORCED_MOVE_FENS] + small_positions(rng, 30 if tier == "quick" else 400, max_pieces=7)
-    npos = 10 + len(FORCED_MOVE_FENS) if tier == "quick" else 120
+    pos = [(f, [], f) for f in FORCED_MOVE_FENS + MATE_FENS] + small_positions(rng, 30 if tier == "quick" else 400, max_pieces=7)
+    npos = 10 + len(FORCED_MOVE_FENS) + len(MATE_FENS) if tier == "quick" else 120
     kmax = 100 if tier == "quick" else 260
     if hunt:
         # the correspondence broke: search harder for a concrete failing expiry point, on the implementation alone
@@ -1253,7 +1314,7 @@ def run_c09(o, tier, rng, prep):
 # ================================================================= session properties (real binary)
 WS = [0x9, 0xa, 0xb, 0xc, 0xd, 0x20, 0x85, 0xa0, 0x1680] + list(range(0x2000, 0x200b)) + [0x2028, 0x2029, 0x202f, 0x205f, 0x3000]
 # option settings for options the engine does not have, in every shape a GUI may send: all are ignored
-SETOPTIONS = ["setoption", "setoption name", "setoption name Ponder", "setoption name Clear Hash", "setoption name Ponder true",
+SETOPTIONS = ["setoption name DebugLogLevel value Info", "setoption name DebugLogLevel value None", "setoption", "setoption name", "setoption name Ponder", "setoption name Clear Hash", "setoption name Ponder true",
               "setoption name Hash value 128", "setoption name DebugLogLevel value", "setoption name Clear Hash value",
               "setoption name UCI_AnalyseMode value true", "setoption name Nalimov Path value c:\\chess\\tb 4;d:\\tb5",
               "setoption value 3", "setoption name Threads value 4 extra"]
@@ -1470,6 +1531,9 @@ def run_c03(o, tier, rng, prep):
     # what the search can choose from after a position command is exactly the legal moves of the position the
     # command describes (a stale en-passant target or castling right left by the text applier shows up here)
     rcases = ["roots\t" + pos_cmd(st_, mv_) for st_, mv_, _, _ in pos] + ["roots\t" + c for c in STALE_EP_SESSIONS]
+    kg = [f for f, _, _ in gens.filter_legal(gens.king_guarded_piece_positions())]
+    rcases += ["roots\tposition fen " + f for f in kg]
+    hist_add(o, "batch:piece next to the king guarded only by the enemy king (every side)", len(kg))
     rres = V.run_cases(rcases)
     rmm, rsm = V.compare(rres)
     o.evaluations += len(rres)
@@ -1983,6 +2047,27 @@ def run_c17(o, tier, rng, prep):
             o.distinct += 1
         finally:
             eng.close()
+    # the one option the engine has switches a log file on: from then on ignored lines are also logged, and must
+    # still be ignored - every garbage line once, each followed by isready
+    eng = blackbox.Engine(V.BINARY)
+    try:
+        eng.handshake()
+        eng.send("setoption name DebugLogLevel value Info")
+        eng.send("position startpos moves e2e4")
+        for g in GARBAGE + ["setoption name Hash value 1", "debug", "go2 infinite"]:
+            w = spec_words(g)
+            if w and w[0] in ("quit", "position", "uci", "ucinewgame", "go", "isready"):
+                continue
+            eng.send(g)
+            o.evaluations += 1
+            if not eng.isready():
+                ok = False
+                o.violation("input", "with the debug log on, isready is not answered after the ignored line %r" % g,
+                            {"script": ["setoption name DebugLogLevel value Info", g, "isready"], "stderr": eng.stderr_text()})
+                break
+        hist_add(o, "garbage session with the debug log on")
+    finally:
+        eng.close()
     # end of input at every point of a small session
     base = ["uci", "isready", "position startpos", "go wtime 110 btime 110", "isready", "setoption name DebugLogLevel value None"]
     for cut in range(0, len(base) + 1):
